@@ -12,3 +12,20 @@ class LazyStats(nn.Module):
         if not hasattr(self, 'seen_max'):
             self.register_buffer('seen_max', x.abs().max())
         return x * self.scale
+
+
+class RefreshOnLoad(nn.Module):
+    """Positive control for R17e: a checkpoint-protocol override that runs a forward pass."""
+    def __init__(self):
+        super().__init__()
+        self.bn = nn.BatchNorm1d(4)
+        self._example = torch.zeros(2, 4, 8)
+
+    def forward(self, x):
+        return self.bn(x)
+
+    def load_state_dict(self, state_dict, *args, **kwargs):
+        res = super().load_state_dict(state_dict, *args, **kwargs)
+        with torch.no_grad():
+            self(self._example)
+        return res
